@@ -459,6 +459,11 @@ def handleEnded : Nat → St → St
     | [] => s
     | k :: _ => handleEnded n (finish s k)
 
+/-- `handle_ended_actions` run until the failed action set is empty: every `finish` takes its activity out of the set
+(`clean_action`), so `failedQ.length` iterations are enough; `nActs + 1` is kept as a lower bound (the bound used
+before; the two agree on every state met so far: the set has no duplicate and only holds existing activities). -/
+def handleEndedAll (s : St) : St := handleEnded (max (s.nActs + 1) s.failedQ.length) s
+
 /-- the events of the transition system -/
 inductive Ev where
   | isendWait (a m : Nat)            -- blocking put: isend + wait_for in one simcall
@@ -496,7 +501,7 @@ def step (s : St) (e : Ev) : St :=
   | .linkOn l => linkOnEv s l
   | .complete k => complete s k
   | .actorEnd a => actorEnd s a
-  | .handleEnded => handleEnded (s.nActs + 1) s
+  | .handleEnded => handleEndedAll s
 
 def run (s : St) (es : List Ev) : St := es.foldl step s
 
